@@ -116,6 +116,22 @@ inline gm2calc::thdm::Mass_basis rand_mass_basis(vh::Rng& r, const ThdmOpts& o =
    b.zeta_u = r.U(-o.zeta, o.zeta); b.zeta_d = r.U(-o.zeta, o.zeta); b.zeta_l = r.U(-o.zeta, o.zeta);
    b.Delta_u = rand33(r, o.delta); b.Delta_d = rand33(r, o.delta); b.Delta_l = rand33(r, o.delta);
    b.Pi_u = rand33(r, o.pi); b.Pi_d = rand33(r, o.pi); b.Pi_l = rand33(r, o.pi);
+   // exact special values of single inputs (drawn last, so that the other parameters of a case do not depend on this step): Z2-symmetric and softly broken
+   // shapes, tan(beta) = 1, alignment parameters 0 / +-1, vanishing flavour-violating matrices, ties of the heavy masses
+   if (o.special_points && r.chance(0.15)) {
+      switch (r.range(10)) {
+      case 0: b.lambda_6 = 0; break;
+      case 1: b.lambda_7 = 0; break;
+      case 2: b.lambda_6 = 0; b.lambda_7 = 0; break;
+      case 3: b.tan_beta = 1; break;
+      case 4: { const double z[3] = {0, 1, -1}; b.zeta_l = z[r.range(3)]; if (r.chance(0.5)) { b.zeta_u = z[r.range(3)]; b.zeta_d = z[r.range(3)]; } } break;
+      case 5: b.m122 = 0; break;
+      case 6: b.Delta_u.setZero(); b.Delta_d.setZero(); b.Delta_l.setZero(); b.Pi_u.setZero(); b.Pi_d.setZero(); b.Pi_l.setZero(); break;
+      case 7: b.mA = b.mH; break;
+      case 8: b.mHp = b.mA; break;
+      default: b.mHp = b.mH; break;
+      }
+   }
    return b;
 }
 
